@@ -106,6 +106,13 @@ type Opts struct {
 	StrIndexOOB bool // string literal indexed outside its length ('abc'[5], ''[0])
 	IndexThenSlice bool // X[i][a:b]: a slice suffix directly after an index (C02-F04)
 	Extra     bool   // C02: this./&raw reads, load/loadRaw/store, dict methods, functions in containers, nested aliases (extra.go)
+	// NoAlias (C09) keeps a container reachable from one place only: no `y = x` for an array/dict variable x and no
+	// container variable as an element of a literal that is stored.  Off (default): nothing changes.
+	NoAlias bool
+	// C06 (random.go); all default to off, which leaves every existing draw sequence unchanged.
+	DiceBoost    float64 // probability that an int expression node is a randomness term (dice / random array method)
+	RandMethods  bool    // shuffle / rand / randSize (only where the oracle is seed replay)
+	DefaultSides bool    // dice without a sides operand (Xd, d, d优势): sides come from Config.DefaultDiceSideExpr
 	Avoid     func(string) bool
 }
 
@@ -124,6 +131,7 @@ type G struct {
 	reserved  map[string]bool // loop counters, params being iterated
 	nameSeq   int
 	funcs     int
+	inStore   int // >0 while generating a value that will be stored (NoAlias)
 }
 
 func NewG(t *rapid.T, o Opts, env *Env) *G {
@@ -292,6 +300,9 @@ func (g *G) intLeaf() *Node {
 }
 
 func (g *G) intExpr(d int) *Node {
+	if g.O.DiceBoost > 0 && g.chance(g.O.DiceBoost, "diceBoost") {
+		return g.RandTerm(d - 1)
+	}
 	if d <= 0 {
 		return g.intLeaf()
 	}
@@ -682,9 +693,16 @@ func (g *G) arrILit(n int) *Node {
 }
 
 func (g *G) arrIExpr(d int) *Node {
+	if g.O.RandMethods && g.intn(8, "randArr") == 0 {
+		return g.randArr(d - 1)
+	}
 	vars := g.Env.OfType(TArrI)
 	if len(vars) > 0 && g.intn(2, "arrIVar") == 0 {
-		return Var(vars[g.intn(len(vars), "arrIVarPick")].Name)
+		v := Var(vars[g.intn(len(vars), "arrIVarPick")].Name)
+		if g.O.NoAlias && g.inStore > 0 {
+			return Bin("+", v, N("arr")) // a copy, not a second reference
+		}
+		return v
 	}
 	if d <= 0 {
 		return g.arrILit(g.intn(5, "arrILen"))
@@ -722,9 +740,11 @@ func (g *G) arrIExpr(d int) *Node {
 func (g *G) arrExpr(d int) *Node {
 	a := N("arr")
 	n := g.intn(4, "arrLen")
+	g.inStore++
 	for i := 0; i < n; i++ {
 		a.Kids = append(a.Kids, g.Expr(TAny, d-1))
 	}
+	g.inStore--
 	return a
 }
 
@@ -733,7 +753,10 @@ var dictKeys = []string{"x", "y", "z", "hp", "w1", "力量", "k y", "0"}
 func (g *G) dictExpr(d int) *Node {
 	vars := g.Env.OfType(TDict)
 	if len(vars) > 0 && g.intn(2, "dictVar") == 0 {
-		return Var(vars[g.intn(len(vars), "dictVarPick")].Name)
+		v := Var(vars[g.intn(len(vars), "dictVarPick")].Name)
+		if !(g.O.NoAlias && g.inStore > 0) {
+			return v
+		}
 	}
 	n := N("dict")
 	cnt := g.intn(4, "dictLen")
@@ -847,6 +870,9 @@ func (g *G) Dice(d int) *Node {
 	if g.intn(6, "diceUpper") == 0 {
 		n.Q = 1
 	}
+	if g.O.DefaultSides && g.intn(4, "diceNoSides") == 0 {
+		g.dropSides(n)
+	}
 	return n
 }
 
@@ -889,7 +915,9 @@ func (g *G) assignStmt(d int) *Node {
 	if name == "" {
 		name = g.FreshName()
 	}
+	g.inStore++
 	e := g.Expr(want, d)
+	g.inStore--
 	info := &VarInfo{Name: name, T: want, Len: -1}
 	switch want {
 	case TArrI:
@@ -947,7 +975,12 @@ func (g *G) Stmt(d int) []*Node {
 	if g.O.Extra {
 		kinds = append(kinds, "extra", "extra", "extra")
 	}
+	if g.O.RandMethods {
+		kinds = append(kinds, "randstmt")
+	}
 	switch kinds[g.intn(len(kinds), "stmtKind")] {
+	case "randstmt":
+		return []*Node{g.randStmt(d)}
 	case "assign":
 		return []*Node{g.assignStmt(d)}
 	case "expr":
@@ -1005,6 +1038,9 @@ func (g *G) mutateStmt(d int) *Node {
 			// alias: another name for the same array
 			name := g.FreshName()
 			g.Env.Put(&VarInfo{Name: name, T: TArrI, Len: v.Len})
+			if g.O.NoAlias {
+				return Set(name, Bin("+", Var(v.Name), N("arr")))
+			}
 			return Set(name, Var(v.Name))
 		}
 	}
